@@ -217,8 +217,7 @@ def guarded(fn, conv=lambda x: x):
     """run implementation code; -> {'ok': value} | {'err': class}"""
     try:
         return {'ok': conv(fn())}
-    except (Base58Error, ValueError, TypeError, IndexError, KeyError, AttributeError, OverflowError,
-            AssertionError, UnicodeError) as e:
+    except Exception as e:   # implementation code only runs inside fn; every failure is an observation
         return {'err': err_class(e)}
 
 
@@ -409,6 +408,7 @@ def do_derive(run, model, case):
     v = vers(case['ledger'])
     vp, vs = bytes.fromhex(v['ver_pub']), bytes.fromhex(v['ver_priv'])
     prefix = LEDGERS[case['ledger']].pubkey_address_prefix
+    sprefix = LEDGERS[case['ledger']].script_address_prefix
     seed = bytes.fromhex(case['seed'])
     path = case['path']
     sig = {'op': 'derive', 'seed': case['seed'], 'path': path, 'ledger': case['ledger']}
@@ -434,14 +434,21 @@ def do_derive(run, model, case):
     def observe(k):
         return {'key': key_obs(k), 'pub': key_obs(k.public_key), 'xprv': k.extended_key_string(),
                 'xpub': k.public_key.extended_key_string(), 'address': k.address,
-                'id': k.identifier().hex(), 'raw': k.extended_key().hex()}
+                'id': k.identifier().hex(), 'raw': k.extended_key().hex(),
+                'h160': bytes(led.address_to_hash160(k.address)).hex(),
+                'is_pubkey_address': led.is_pubkey_address(k.address),
+                'script_address': led.hash160_to_script_address(k.identifier())}
 
     def mobserve(mk):
         mpub = model.call('neuter', k=mk)
         return {'key': mk, 'pub': mpub, 'xprv': model.call('xk_to_string', k=mk, **v).get('ok'),
                 'xpub': model.call('xk_to_string', k=mpub, **v).get('ok'),
                 'address': model.call('address', prefix=prefix.hex(), pk=mpub['key']).get('ok'),
-                'id': model.call('identifier', pk=mpub['key']), 'raw': model.call('xk_serialize', k=mk, **v)}
+                'id': model.call('identifier', pk=mpub['key']), 'raw': model.call('xk_serialize', k=mk, **v),
+                'h160': model.call('address_to_hash160',
+                                   a=thex(model.call('address', prefix=prefix.hex(), pk=mpub['key']).get('ok'))).get('ok'),
+                'is_pubkey_address': True,
+                'script_address': model.call('b58_encode_check', p=(sprefix + hash160(bytes.fromhex(mpub['key']))).hex()).get('ok')}
 
     def monitor_node(k_obs, r, where):
         if r is None:
@@ -458,6 +465,10 @@ def do_derive(run, model, case):
             return f'{where}: extended key string differs from BIP32 ({k_obs["xprv"]} / {k_obs["xpub"]})'
         if k_obs['address'] != r.address(prefix):
             return f'{where}: address differs'
+        if k_obs['h160'] != hash160(r.pub).hex() or not k_obs['is_pubkey_address']:
+            return f'{where}: address does not decode back to hash160 of the public key'
+        if k_obs['script_address'] != ref_b58check(sprefix + hash160(r.pub)):
+            return f'{where}: script address differs'
         return None
 
     obs = observe(key)
@@ -1001,6 +1012,18 @@ def gen_scalar(rng, n):
 
 def gen_account(rng, n):
     english = wordlist('english')
+
+    def sim_ensure(rows, gap):
+        """generator-side bookkeeping of chain length / usage (only steers index choice)"""
+        top = rows[::-1][:gap]
+        ex = 0
+        for u in top:
+            if u:
+                break
+            ex += 1
+        if ex != gap:
+            rows.extend([0] * (gap - ex))
+
     for _ in range(n):
         words = [rng.choice(english) for _ in range(rng.choice([1, 3, 12, 12]))]
         mn = ' '.join(words)
@@ -1010,26 +1033,36 @@ def gen_account(rng, n):
                    'receiving': {'gap': rng.choice([0, 1, 2, 3, 5, 8, 20]), 'maximum_uses_per_address': rng.choice([1, 2])},
                    'change': {'gap': rng.choice([0, 1, 2, 6]), 'maximum_uses_per_address': 1}}
         ops = []
-        size = {0: 0, 1: 0}
+        rows = {0: [], 1: []}
         gaps = {0: gen.get('receiving', {}).get('gap', 20), 1: gen.get('change', {}).get('gap', 6)}
-        for _ in range(rng.randint(1, 10)):
+        for _ in range(rng.randint(2, 14)):
             c = rng.random()
-            chain = rng.choice([0, 1])
-            if c < 0.4:
-                g = rng.choice([0, 1, 1, 2, 3, 4, 5, 7, 10, gaps[chain]])
+            chain = rng.choice([0, 0, 1])
+            if c < 0.4 or not rows[chain]:
+                g = rng.choice([0, 1, 2, 3, 3, 4, 5, 7, 10, gaps[chain], gaps[chain]])
                 ops.append(['ensure', chain, g])
                 gaps[chain] = g
-                size[chain] += g          # upper bound
-            elif c < 0.5:
+                sim_ensure(rows[chain], g)
+            elif c < 0.48:
                 ops.append(['ensure_all'])
-                size[0] += gaps[0]
-                size[1] += gaps[1]
+                sim_ensure(rows[0], gaps[0])
+                sim_ensure(rows[1], gaps[1])
             else:
-                hi = max(1, size[chain])
-                idx = rng.choice([0, hi - 1, max(0, hi - gaps[chain]), rng.randrange(hi), rng.randrange(hi + 2)])
-                ops.append(['use', chain, idx, rng.choice([0, 1, 1, 1, 2, 3])])
-        if rng.random() < 0.7:
-            ops.append(['ensure', rng.choice([0, 1]), rng.choice([1, 2, 3, 5])])
+                ln = len(rows[chain])
+                g = max(1, gaps[chain])
+                # mostly inside the window the next ensure looks at: top, just below the top, window edge
+                idx = rng.choice([ln - 1, ln - 2, ln - 2, ln - 3, ln - g, ln - g + 1, ln - g - 1, 0,
+                                  rng.randrange(ln), ln, ln + 1])
+                idx = max(0, idx)
+                times = rng.choice([0, 1, 1, 1, 2, 3])
+                ops.append(['use', chain, idx, times])
+                if idx < ln:
+                    rows[chain][idx] = times
+                if rng.random() < 0.6:
+                    g = rng.choice([gaps[chain], gaps[chain], 2, 3, 4])
+                    ops.append(['ensure', chain, g])
+                    gaps[chain] = g
+                    sim_ensure(rows[chain], g)
         yield {'op': 'account', 'ledger': rng.choice(['main', 'main', 'regtest']), 'mnemonic': mn,
                'generator': gen, 'ops': ops}
 
@@ -1149,7 +1182,7 @@ def main(run):
         check_case(run, model, case)
     for case in gen_scalar(rng, 150 * n):
         check_case(run, model, case)
-    for case in gen_account(rng, 14 * n):
+    for case in gen_account(rng, 24 * n):
         check_case(run, model, case)
     for case in gen_mn(rng, 300 * n, 200 if q else 3000):
         check_case(run, model, case)
